@@ -116,6 +116,24 @@ def configs(tier):
             for r in S:
                 for a in A:
                     out.append({'cls': 'regpoly', 'center': list(c), 'n': n, 'radius': r, 'angle': a})
+    # directly built compounds: the compound's own meta (an explicit one for every include value, an EMPTY one for
+    # 'absent') decides the include sense, whatever the flags of the operands say
+    for c in C[:2]:
+        for op in ('and', 'or', 'xor'):
+            for i1 in ('absent', False, 0):
+                for i2 in ('absent', False):
+                    out.append({'cls': 'compound', 'op': op,
+                                'r1': {'cls': 'circle', 'center': [c[0] - 1.0, c[1]], 'radius': 2.5, 'include': i1},
+                                'r2': {'cls': 'rectangle', 'center': [c[0] + 1.0, c[1] + 0.5], 'width': 3.0, 'height': 2.0,
+                                       'angle': K.angle_spec(30.0), 'include': i2}})
+    # rotations a few 1e-9 rad away from a quarter turn (below any absolute 'is close to zero' tolerance) of needle-like
+    # shapes: the ends of the long axis move by more than the thickness
+    big, thin = 1.75 * 2.0 ** 20, 2.0 ** -10
+    for cls in ('ellipse', 'rectangle'):
+        for c in C[:2]:
+            for d in (4e-7, -3e-7, 90 + 4e-7, 180 - 3e-7, 270 + 2e-7):
+                for (w, h) in ((big, thin), (thin, big)):
+                    out.append({'cls': cls, 'center': list(c), 'width': w, 'height': h, 'angle': K.angle_spec(d)})
     for c in C:
         out.append({'cls': 'point', 'center': list(c)})
         out.append({'cls': 'text', 'center': list(c), 'text': 'a label'})
@@ -155,6 +173,7 @@ def _cmp(res, case, what, got, want, sure, shape):
 
 
 THIN = ['flat', 'scalar', 'narrow_int']
+COMPOUND_CONTS = ['flat', 'scalar', '2d', 'in_array']
 
 
 def check_config(res, spec, includes=K.INCLUDES, containers=CONTAINERS, full=True):
@@ -179,7 +198,9 @@ def check_config(res, spec, includes=K.INCLUDES, containers=CONTAINERS, full=Tru
         except Exception as exc:
             res.violation(ID, 'build_failed', {'spec': s}, f'could not construct region: {type(exc).__name__}: {exc}')
             continue
-        if full or containers is not CONTAINERS:
+        if spec['cls'] == 'compound' and containers is CONTAINERS:
+            conts = COMPOUND_CONTS      # the other containers are written for single shapes
+        elif full or containers is not CONTAINERS:
             conts = containers
         else:
             # thin crossing: every include flag with the flat query; scalar form for absent/False
@@ -376,7 +397,7 @@ def shards(tier, seed):
     for c in configs(tier):
         k = count.get(c['cls'], 0)
         count[c['cls']] = k + 1
-        small = c['cls'] in ('circle', 'polygon', 'point', 'line', 'text', 'circleannulus')
+        small = c['cls'] in ('circle', 'polygon', 'point', 'line', 'text', 'circleannulus', 'compound')
         cfgs.append((c, bool(small or k % 6 == 0)))
     n = 64 if tier == 'quick' else 256
     return chunks(cfgs, n)
